@@ -179,7 +179,7 @@ pub fn law(ctx: &Ctx, fam: Fam, ft: Ft, n: u64) {
         let m: usize = if ctx.thorough() { 1 << 26 } else { 1 << 24 };
         let src = Src::Dyn(s.as_ref());
         let raw = src.raw(m, seed);
-        let rej = atom_rejections(&lawr, &sl, ft, &atom_candidates(&raw, 2), m as u64);
+        let rej = atom_rejections(&lawr, &sl, ft, &atom_candidates(&raw, crate::stats::atom_min_count(m as u64, sl.rho_abs)), m as u64);
         drop(raw);
         if !rej.is_empty() {
             let raw2 = src.raw(4 * m, hseed(&[seed, 0xC0F1]));
